@@ -135,6 +135,7 @@ Lemma lex_loop_tiles f t pos lc :
   (List.length t <= f)%nat -> tiles pos lc (lex_loop f t pos lc) t.
 Proof.
   unfold lex_loop. apply lex_loop_with_tiles. intros t' n k H.
+  unfold lex_one in H. destruct (unclosed_comment t'); [discriminate|].
   exact (lex_one_with_pos literal_tokens regex_tokens t' n k H).
 Qed.
 
